@@ -93,9 +93,17 @@ Section Ok.
     (if f_omit fd then omit_ty_ok (f_ty fd) && quiet_ty QN (f_ty fd) else true) &&
     (if has_range fd then quiet_ty QN (f_ty fd) else true).
 
+  (** an omitempty scalar read with d.Opt by a hand-written decoder and written reflectively:
+      the value left when it is absent must itself be a conforming scalar (not so for []byte) *)
+  Definition omit_scalar_ok (t : ty) : bool :=
+    match t with
+    | TScalar k => enc_kind_ok k && omit_ty_ok t && scalar_ok k (zero_of S 8 t)
+    | _ => false
+    end.
+
   (** ---- the shapes the hand-written decoders rely on (the static part of the conf functions) *)
   Definition ext_ok (t : ty) : bool :=
-    match t with TPtr t' => one_item t' && elem_ok t' | _ => false end.
+    match t with TPtr _ => elem_ok t | _ => false end.
 
   Definition payload_name_ok (n : string) : bool :=
     negb (multi_enc n) && elem_ok (TNamed n).
@@ -118,7 +126,7 @@ Section Ok.
     ty_eqb (fty d 0) (TScalar (KEnum (ftag d 0))) && ty_eqb (fty d 1) (TScalar KBytes) &&
     ty_eqb (fty d 2) (TScalar (KEnum (ftag d 2))) && ty_eqb (fty d 3) (TScalar (KEnum (ftag d 3))) &&
     ty_eqb (fty d 4) (TScalar KString) && ty_eqb (fty d 5) (TScalar KBytes) &&
-    ext_ok (fty d 7) &&
+    ext_ok (fty d 7) && (0 <=? ftag d 3) && (ftag d 3 <? 2 ^ 24) &&
     tags_distinct [ftag d 0; ftag d 1; ftag d 2; ftag d 3; ftag d 4; ftag d 5; ftag d 6; ftag d 7].
 
   Definition attr_value_ok (t : ty) : bool := one_item t && elem_ok t.
@@ -137,7 +145,7 @@ Section Ok.
 
   (** an alternative of CredentialValue / KeyMaterial: a pointer to a single-item thing *)
   Definition alt_ok (t : ty) : bool :=
-    match t with TPtr t' => one_item t' && elem_ok t' | _ => false end.
+    match t with TPtr _ => elem_ok t | _ => false end.
 
   Definition credential_ok (d : tdef) : bool :=
     match t_fields d, find_tdef S "kmip.CredentialValue" with
@@ -157,8 +165,7 @@ Section Ok.
       negb (f_omit f0) && f_omit f1 && negb (f_omit f2) && f_omit f3 && f_omit f4 && negb (f_omit f5) &&
       (match f_ty f0 with TScalar (KEnum _) => true | _ => false end) &&
       (match f_ty f1, f_ty f3, f_ty f4 with
-       | TScalar k1, TScalar k3, TScalar k4 => enc_kind_ok k1 && enc_kind_ok k3 && enc_kind_ok k4 &&
-                                               omit_ty_ok (f_ty f1) && omit_ty_ok (f_ty f3) && omit_ty_ok (f_ty f4)
+       | TScalar _, TScalar _, TScalar _ => omit_scalar_ok (f_ty f1) && omit_scalar_ok (f_ty f3) && omit_scalar_ok (f_ty f4)
        | _, _, _ => false end) &&
       ty_eqb (f_ty f2) (TPtr (TNamed "kmip.KeyValue")) &&
       ext_ok (f_ty f5) &&
@@ -170,7 +177,7 @@ Section Ok.
       (List.length (t_fields pkv) =? 2)%nat && (List.length (t_fields km) =? 8)%nat &&
       forallb pos_field (t_fields pkv) && forallb (fun g => negb (f_omit g)) (t_fields pkv) &&
       ty_eqb (fty pkv 0) (TNamed "kmip.KeyMaterial") &&
-      (match fty pkv 1 with TSlice t' => one_item t' && elem_ok t' | _ => false end) &&
+      (match fty pkv 1 with TSlice _ => elem_ok (fty pkv 1) | _ => false end) &&
       negb (ftag pkv 0 =? ftag pkv 1) &&
       forallb (fun g => alt_ok (f_ty g)) (t_fields km)
     | _, _, _, _ => false
@@ -210,8 +217,7 @@ Section Ok.
       (f_tag f4 =? 0) && (match f_ty f4 with TIface _ => true | _ => false end) &&
       (match f_ty f0, f_ty f1, f_ty f2, f_ty f3 with
        | TScalar k0, TScalar k1, TScalar k2, TSlice t3 =>
-         enc_kind_ok k0 && enc_kind_ok k1 && enc_kind_ok k2 && omit_ty_ok (f_ty f1) && omit_ty_ok (f_ty f2) &&
-         one_item t3 && elem_ok t3
+         enc_kind_ok k0 && omit_scalar_ok (f_ty f1) && omit_scalar_ok (f_ty f2) && elem_ok (f_ty f3)
        | _, _, _, _ => false end) &&
       forallb (fun e => tags_distinct [f_tag f0; f_tag f1; f_tag f2; f_tag f3; deftag_of S (TNamed (snd e))]) OBJS
     | _ => false
